@@ -12,7 +12,7 @@ COPY=/tmp/verif_mut_$SLOT
 git -C $WT checkout -q -- . ; git -C $WT clean -fdq
 git -C $WT reset -q --hard $(git -C /repo rev-parse HEAD)
 mkdir -p $COPY
-rsync -a --delete --exclude evidence --exclude replays --exclude .git /verif/ $COPY/
+rsync -a --delete --exclude evidence --exclude replays --exclude .git /verif/ $COPY/ || true   # files may vanish while others edit /verif
 mkdir -p $COPY/evidence
 git -C $WT apply "$PATCH"
 cd $COPY
